@@ -144,6 +144,11 @@ impl<'a> TypingContext<'a> {
     } else {
       return false;
     };
+    // A class object (`Foo` itself, the receiver of its static functions) is not an instance of
+    // `Foo`: it has none of the instance's supertypes.
+    if interface_type.is_class_statics {
+      return false;
+    }
     vec![interface_type]
       .into_iter()
       .chain(
